@@ -393,7 +393,7 @@ func c05Describe() {
 		"HELO names from {default, domain, address literal, with blank/TAB/CRLF+command/NUL, UTF-8, 300 characters}; user names and passwords (incl. CRLF + command, NUL, blanks, ',' '=', 400 characters, empty) for PLAIN/LOGIN/CRAM-MD5/XOAUTH2/SCRAM-SHA-1/-256; DSN off/default/custom RET and NOTIFY combinations; capability subsets. " +
 		"Oracle: every line outside DATA parses as exactly one RFC 5321 command (own strict parser: Reverse-path/Forward-path with Dot-string or Quoted-string local parts, esmtp-params, one EHLO argument); MAIL/RCPT carry only the configured parameters; the parsed paths (local part un-quoted) equal the mailbox the caller set, in To+Cc+Bcc order; or the value was refused and nothing malformed was sent. " +
 		"Non-trivial: a local part that needs quoting, or a HELO name/credential with a character outside [A-Za-z0-9.-]. Distinct by (setter/kind list, HELO, auth, credentials, DSN config, addresses)."
-	rec.Rule += " TestC05Direct: the exported smtp.Client API used directly (NewClient, Hello, Verify, SetDSN*Option, Mail, Rcpt) with RAW caller strings - CR, LF, CRLF + command, NUL, TAB, blanks, '<' '>' '\"' and the hostile header strings - as HELO name, VRFY argument, reverse- and forward-paths and DSN option values; every line that reaches the server is one well-formed command, a call that returned nil put exactly its value on the wire (paths: local part un-quoted), a refused hostile value put nothing there."
+	rec.Rule += " TestC05Direct: the exported smtp.Client API used directly (NewClient, Hello, Verify, SetDSN*Option, Mail, Rcpt) with RAW caller strings - CR, LF, CRLF + command, NUL, TAB, blanks, '<' '>' '\"' and the hostile header strings - as HELO name, VRFY argument, reverse- and forward-paths and DSN option values; every line that reaches the server is one well-formed command, a call that returned nil put exactly its value on the wire (paths: local part un-quoted), a refused hostile value put nothing there. TestC05SendMail: the one-call smtp.SendMail over real TCP with the same raw sender/recipient strings (nothing of a call with a CR/LF carrying address reaches the server)."
 	rec.Assumptions = []string{"an address the setters reject is simply absent from the expected envelope", "UTF-8 local parts are accepted by the reference parser regardless of SMTPUTF8 (not part of the statement)",
 		"direct smtp API: parameters the program configures although the server does not advertise the extension are the program's own doing (mail.Client, judged by C04, is what guards them)"}
 }
